@@ -638,7 +638,7 @@ func init() {
 		QuickRuns:    15000,
 		ThoroughRuns: 1500000,
 		Assumptions: []string{"a subscriber is identified by its private address", "AllocateNAT may fail at any time (no liveness demanded); a failed call changes nothing",
-			"the resolver knows the configured block size when a record carries only the first port", "attribution is queried only at instants at least 0.5 s away from any allocation or release (second-resolution timestamps are accepted)",
+			"in a tenth of the logging runs a log retention age of 1-2 h with an idle period longer than it (the hourly retention pass runs; log files carry virtual mtimes)", "the resolver knows the configured block size when a record carries only the first port", "attribution is queried only at instants at least 0.5 s away from any allocation or release (second-resolution timestamps are accepted)",
 			"linearizability check capped by a model-step budget (virtual time cannot time out a computation); over-budget histories are counted as unknown"},
 	})
 }
